@@ -2,10 +2,11 @@
    Only the directives shipped in ExtrOcamlBasic are used: N/positive/nat/Z stay inductive datatypes. *)
 Require Extraction.
 Require Import ExtrOcamlBasic.
-From Bita Require Import Model.Base Model.RollSum Model.BuzHash Model.Chunker Model.ChunkSpec.
+From Bita Require Import Model.Base Model.RollSum Model.BuzHash Model.Chunker Model.ChunkSpec Model.ChunkIndex Model.CloneOutput.
 Extraction Language OCaml.
 Set Extraction KeepSingleton.
 Extraction "model.ml"
   rs_new rs_input rs_sum bh_new bh_init bh_input bh_sum bh_full
   chunk_stream chunk_oneshot valid_config filter_mask spec_chunks
+  strip_in_place reorder_ops reorder_in_place feed o_init ci_add
   N.of_nat N.to_nat.
